@@ -330,6 +330,58 @@ def w_cli(ctx, wid, seed):
             return
 
 
+@st.composite
+def spend_mock_case(draw):
+    """a real spend session (--tx/--txin) whose signature has been destroyed, repaired by listing exactly that (signature, key) pair: taproot key path
+    (the pair names the OUTPUT key of the synthetic `<key> OP_CHECKSIG`), P2WPKH / P2PKH / P2SH-P2WPKH, and the same with the pair's key changed"""
+    from ..gen import spends
+    rnd = draw(st.randoms(use_true_random=False))
+    typ = draw(st.sampled_from(['p2tr-key', 'p2tr-key', 'p2tr-key', 'p2wpkh', 'p2pkh', 'p2sh-p2wpkh', 'p2pk']))
+    c = spends.build(rnd, typ, ninputs=draw(st.sampled_from([1, 1, 2, 3])) if typ == 'p2tr-key' else 1)
+    tx, idx = c['tx'], c['idx']
+    vin = tx.vin[idx]
+    how = draw(st.sampled_from(['flip', 'random', 'short']))
+    if vin['wit']:
+        sig = vin['wit'][0]
+        new = {'flip': bytes([sig[0] ^ 1]) + sig[1:] if typ == 'p2tr-key' else sig[:5] + bytes([sig[5] ^ 1]) + sig[6:], 'random': bytes(rnd.getrandbits(8) for _ in range(64 if typ == 'p2tr-key' else 9)), 'short': b'sig1'}[how]
+        vin['wit'][0] = new
+        key = c['spk'][2:] if typ == 'p2tr-key' else vin['wit'][1]
+    else:
+        ops = R.decode(vin['script'])
+        sig = ops[0][1]
+        new = {'flip': sig[:5] + bytes([sig[5] ^ 1]) + sig[6:], 'random': bytes(rnd.getrandbits(8) for _ in range(9)), 'short': b'sig1'}[how]
+        vin['script'] = P(new) + vin['script'][len(P(sig)):]
+        key = ops[1][1] if typ == 'p2pkh' else R.decode(c['spk'])[0][1]
+    listed = draw(st.sampled_from(['right', 'right', 'other-key', 'other-sig', 'none']))
+    pair = {'right': (new, key), 'other-key': (new, bytes([key[0]]) + bytes([key[1] ^ 1]) + key[2:]), 'other-sig': (new + b'\x01', key), 'none': None}[listed]
+    return dict(tx=tx.ser().hex(), txin=c['fund'].ser().hex(), typ=typ, how=how, listed=listed, pair=[pair[0].hex(), pair[1].hex()] if pair else None, ninputs=len(tx.vin))
+
+
+def check_spend_mock(c, ctx):
+    kw = dict(spendtx=c['tx'], spendtxin=c['txin'], flags=sum(F[n] for n in R.FLAGS if n != 'SIGPUSHONLY'), cmds='', finish=1)
+    if c['pair']:
+        kw['mock'] = '%s:%s' % tuple(c['pair'])
+    ctx.case(repr(c), True, c, 'spend-mock:%s:%s' % (c['typ'], c['listed']))
+    ctx.count('spend-mock:' + c['typ'] + (':multi-input' if c['ninputs'] > 1 else ''))
+    g = harness().req(kvline('session', **kw))
+    if g.get('timeout'):
+        ctx.inconclusive += 1
+        return
+    if 'crash' in g or 'exit' in g:
+        raise Violation(c, 'spend session with a mocked pair died: %r' % g, observed=g)
+    if 'refused' in g:
+        raise Violation(c, 'spend session refused: %r' % g, observed=g)
+    good = bool(g.get('ok')) and g['final']['st'] == ['01']
+    if c['listed'] == 'right' and not good:
+        raise Violation(c, 'the destroyed signature of a %s spend is listed with its key (%s), but the session fails: %s' % (c['typ'], kw['mock'][:40] + '...', g.get('err')), observed=[g.get('ok'), g.get('err')], expected='01')
+    if c['listed'] != 'right' and good:
+        raise Violation(c, 'a destroyed signature is accepted although the listed pair (%s) is not the checked one' % c['listed'], observed=g['final']['st'], expected='signature failure')
+
+
+def w_spend_mock(ctx, wid, seed, examples):
+    core.hyp_campaign(ctx, 'spend-mock', spend_mock_case(), check_spend_mock, examples, seed, lambda c: c)
+
+
 def w_shared_sig(ctx, wid, seed):
     """one signature listed for two keys: both listed pairs must succeed"""
     c = dict(pairs=[(b'\xaa', b'\xb1'), (b'\xaa', b'\xb2')], script=P(b'\xb1') + b'\xad' + P(b'\xb2') + b'\xac', stack=[b'\xaa', b'\xaa'], flags=0, sv=R.BASE, tx=None, kinds=['listed', 'listed'], template='checksig')
@@ -346,7 +398,7 @@ def w_shared_sig(ctx, wid, seed):
 def run(tier, t0):
     W = core.WORKERS
     n = 1200 if tier == 'quick' else 40000
-    tasks = [(w_cli, dict()), (w_shared_sig, dict())] + [(w_mixed, dict(examples=n)) for _ in range(W)] + [(w_ni, dict(examples=n // 2)) for _ in range(W // 2)] + [(w_wrongsig, dict(examples=n // 2)) for _ in range(W // 4)]
+    tasks = [(w_cli, dict()), (w_shared_sig, dict())] + [(w_mixed, dict(examples=n)) for _ in range(W)] + [(w_ni, dict(examples=n // 2)) for _ in range(W // 2)] + [(w_wrongsig, dict(examples=n // 2)) for _ in range(W // 4)] + [(w_spend_mock, dict(examples=n // 4)) for _ in range(max(2, W // 4))]
     m = core.parallel(PID, tasks)
     return core.finish(PID, tier, m, RULE, t0, min_nontrivial=2000 if tier == 'quick' else 80000,
                        assumptions=['reference interpreter with the rule "a listed (S,P) succeeds before any other rule"; everything else is the real check',
@@ -360,6 +412,12 @@ def replay(rec):
     if camp in ('cli', 'cli-malformed'):
         w_cli(ctx, 0, 0)
         return (not ctx.violations), str(ctx.violations[:1])
+    if camp == 'spend-mock':
+        try:
+            check_spend_mock(rec['case'], ctx)
+        except Violation as v:
+            return False, 'still failing: %s' % v.why
+        return True, 'ok'
     c = case_from_json(rec['case'])
     try:
         if camp == 'non-interference':
